@@ -73,7 +73,7 @@ func famC05(g *Gen, o *Out, n int, thorough bool) {
 	seq++
 	longSession(g, o, 2100+g.pick(2500), seq)
 	if thorough {
-		for _, k := range []int{1025, 4097 + g.pick(100), 8200 + g.pick(1000), 16500} {
+		for _, k := range []int{1025, 4097 + g.pick(100), 8200 + g.pick(1000)} {
 			seq++
 			longSession(g, o, k, seq)
 		}
